@@ -128,7 +128,7 @@ func (m *model) valid(o Op) bool {
 			return o.V == m.ch[o.C].newest || o.V == m.ch[o.C].newest+1
 		}
 		return m.ch[o.C].status == stNever && o.V <= 8
-	case "stopsub", "pubs":
+	case "stopsub", "pubs", "startagain":
 		return (o.C == 1 || o.C == 2) && m.watched(o.C)
 	case "pubp":
 		return o.C >= 0 && o.C <= 2 && m.watched(0)
@@ -178,6 +178,11 @@ func (m *model) enabled() []Op {
 	for j := 1; j <= 2; j++ {
 		if m.watched(j) {
 			ops = append(ops, Op{K: "stopsub", C: j})
+		}
+	}
+	for j := 1; j <= 2; j++ {
+		if m.watched(j) {
+			ops = append(ops, Op{K: "startagain", C: j})
 		}
 	}
 	ops = append(ops, Op{K: "stopp"})
@@ -240,6 +245,10 @@ func (m *model) apply(o Op) *expect {
 		} else {
 			e.class("startsub:not-yet-locked")
 		}
+	case "startagain":
+		// a second start of a sub-channel that is being watched is refused (the
+		// watcher's own tests expect the error) and changes nothing
+		e.class("startagain:refused")
 	case "pubs":
 		m.ch[o.C].newest++
 		e.class("pubs")
